@@ -4,6 +4,7 @@ package c12
 import (
 	"encoding/json"
 	"fmt"
+	"golang.org/x/text/unicode/norm"
 	"os"
 	"runtime/debug"
 	"sort"
@@ -79,7 +80,9 @@ func (h *hist) newBody(wb *hclwrite.Body, owner *mBlock) *mBody {
 }
 
 func (h *hist) newBlock(wb *hclwrite.Block, typ string, labels []string, parent *mBody) *mBlock {
-	blk := &mBlock{id: h.nextID, h: wb, typ: typ, labels: append([]string{}, labels...), parent: parent}
+	// (labels written through the API go through cty strings, which are kept in Unicode normalisation form C;
+	// labels read from a file are NFC already — the native parser normalises string literals)
+	blk := &mBlock{id: h.nextID, h: wb, typ: typ, labels: nfcAll(labels), parent: parent}
 	h.nextID++
 	h.blocks[blk.id] = blk
 	blk.body = h.newBody(wb.Body(), blk)
@@ -193,7 +196,14 @@ func (h *hist) load() bool {
 			return false
 		}
 		var wd hcl.Diagnostics
-		if !h.guard("parseconfig", func() { h.f, wd = hclwrite.ParseConfig(src, "", hcl.InitialPos) }) {
+		if !h.guard("parseconfig", func() {
+			// (the caller's buffer is recycled after loading)
+			buf := append([]byte{}, src...)
+			h.f, wd = hclwrite.ParseConfig(buf, "", hcl.InitialPos)
+			for i := range buf {
+				buf[i] = "#{}=\"\n x"[i%8]
+			}
+		}) {
 			return false
 		}
 		if wd.HasErrors() || h.f == nil {
@@ -459,6 +469,34 @@ func topDetached(b *mBody) *mBlock {
 	return nil
 }
 
+// spanHoldsLaterLines: the tokens the library attributes to one item, [s,e) of the file's tokens, must stop at the
+// end of the item's last line: after the item's first non-comment token, outside every bracket, template and
+// heredoc, the first token that ends a line (a newline, or a # / // comment, which contains its newline) is the
+// last token of the item.  Anything after it — comment lines that lead the NEXT item — is not the item's.
+func spanHoldsLaterLines(before []tb, s, e int) bool {
+	depth := 0
+	started := false
+	for i := s; i < e; i++ {
+		t := before[i]
+		if !started {
+			if t.T == hclsyntax.TokenComment || t.T == hclsyntax.TokenNewline {
+				continue
+			}
+			started = true
+		}
+		switch t.T {
+		case hclsyntax.TokenOParen, hclsyntax.TokenOBrack, hclsyntax.TokenOBrace, hclsyntax.TokenOQuote, hclsyntax.TokenOHeredoc, hclsyntax.TokenTemplateInterp, hclsyntax.TokenTemplateControl:
+			depth++
+		case hclsyntax.TokenCParen, hclsyntax.TokenCBrack, hclsyntax.TokenCBrace, hclsyntax.TokenCQuote, hclsyntax.TokenCHeredoc, hclsyntax.TokenTemplateSeqEnd:
+			depth--
+		}
+		if depth <= 0 && isLineEnd(t) && i != e-1 {
+			return true
+		}
+	}
+	return false
+}
+
 // noteRemove: the removed span starts with a comment that ends the line of the token before it (the
 // comment after a block's opening brace is held by the block's first item as a lead comment).
 func noteRemove(slot *string, before []tb, s int) {
@@ -650,6 +688,9 @@ func (h *hist) step(op Op) {
 			if wa == nil {
 				fr.invalid = fmt.Sprintf("GetAttribute(%q) is nil for an attribute the model holds", op.Name)
 			} else if s, e, ok := locate(all, wa.BuildTokens(nil)); ok {
+				if spanHoldsLaterLines(before, s, e) {
+					h.fail("item-span:attribute-holds-tokens-of-later-lines", fmt.Sprintf("the tokens of attribute %q go on after the end of its last line (comment lines that belong to what follows)", op.Name), string(wa.BuildTokens(nil).Bytes()))
+				}
 				fr.exact = [][]tb{splice(before, s, e, nil)}
 				noteRemove(slot, before, s)
 			} else {
@@ -781,6 +822,9 @@ func (h *hist) step(op Op) {
 		if member {
 			fr = &frame{kind: "removeblock"}
 			if s, e, ok := locate(all, blk.h.BuildTokens(nil)); ok {
+				if spanHoldsLaterLines(before, s, e) {
+					h.fail("item-span:block-holds-tokens-of-later-lines", "the tokens of the block go on after the end of its closing line (comment lines that belong to what follows)", string(blk.h.BuildTokens(nil).Bytes()))
+				}
 				fr.exact = [][]tb{splice(before, s, e, nil)}
 				noteRemove(slot, before, s)
 			} else {
@@ -851,7 +895,7 @@ func (h *hist) step(op Op) {
 		} else {
 			apply = func() { blk.h.SetLabels(op.Labels) }
 			after = func() {
-				blk.labels = append([]string{}, op.Labels...)
+				blk.labels = nfcAll(op.Labels)
 				blk.multiLabels = false
 				blk.fromSource = false
 				h.changed = true
@@ -917,6 +961,14 @@ func (h *hist) step(op Op) {
 
 // ---------------------------------------------------------------------------
 // observations after every operation
+
+func nfcAll(ls []string) []string {
+	out := make([]string, len(ls))
+	for i, l := range ls {
+		out[i] = norm.NFC.String(l)
+	}
+	return out
+}
 
 func sameStrs(a, b []string) bool {
 	if len(a) != len(b) {
